@@ -7,6 +7,7 @@ import (
 	"go/types"
 	"math/big"
 	"strings"
+	"time"
 
 	"golang.org/x/tools/go/ssa"
 )
@@ -228,6 +229,9 @@ func (st *State) execBlocks(fr *frame) {
 			st.steps++
 			if st.steps > st.E.MaxSteps {
 				st.abort("bound", fmt.Sprintf("more than %d instructions on one path", st.E.MaxSteps))
+			}
+			if st.steps&0xffff == 0 && !st.E.Deadline.IsZero() && time.Now().After(st.E.Deadline) {
+				st.abort("bound", "time budget exhausted inside a path")
 			}
 			next = st.step(fr, ins)
 			if fr.returned {
@@ -577,6 +581,17 @@ func (e *Engine) zeroResults(res *types.Tuple) Value {
 // concreteInt demands a constant integer.
 func (st *State) concreteInt(v Value, what string) int {
 	t := v.(*Term)
+	if !t.Const && t.Sort == SInt {
+		// case split: a symbolic integer that must be concrete here (an index, a length, a
+		// shift count of the reflect model) is enumerated over the values the path allows,
+		// as long as they are few (the harness intrinsic vConcretizeInt does the same on request)
+		for k := -1; k <= 64; k++ {
+			if st.Branch(Eq(t, IntT64(int64(k)))) {
+				return k
+			}
+		}
+		st.unsupported("symbolic %s outside -1..64", what)
+	}
 	if !t.Const {
 		st.unsupported("symbolic %s", what)
 	}
